@@ -6,6 +6,7 @@ package main
 
 import (
 	"go/ast"
+	"go/constant"
 	"go/token"
 	"go/types"
 )
@@ -753,4 +754,140 @@ func (cf *coverFn) dependsOnMulti(e ast.Node, obj types.Object) bool {
 		return hit
 	}
 	return visit(e)
+}
+
+// c18ShowTrans: the text of a transition (used by every set listing) names its source state and, for a reduce
+// transition, the rule's left-hand side and every right-hand symbol; for a symbol transition, that symbol.
+func c18ShowTrans(c *Ctx, r *Report, f *FuncRef) {
+	cf := newCoverFn(f)
+	info := cf.info
+	ps := paramObjs(info, f.Decl)
+	if len(ps) != 1 {
+		r.Undecided("C18.c", "R2 COVERAGE", f.Name, c.pos(f.Decl.Pos()), "expected one parameter (the transition index)")
+		return
+	}
+	// the transition: lalr.trans[param]
+	isTrans := func(e ast.Expr) bool {
+		ix, ok := cf.resolve(e).(*ast.IndexExpr)
+		return ok && fieldNamed(info, ix.X, "trans") && identObj(info, ix.Index) == ps[0]
+	}
+	var buf types.Object
+	if rt, ok := f.Decl.Body.List[len(f.Decl.Body.List)-1].(*ast.ReturnStmt); ok && len(rt.Results) == 1 {
+		buf = identObj(info, rt.Results[0])
+	}
+	why := ""
+	if buf == nil {
+		why = "the function does not end by returning the assembled text"
+	}
+	adds := func(n ast.Node, pred func(e ast.Expr) bool) bool {
+		hit := false
+		ast.Inspect(n, func(m ast.Node) bool {
+			as, ok := m.(*ast.AssignStmt)
+			if !ok || len(as.Lhs) != 1 || identObj(info, as.Lhs[0]) != buf {
+				return true
+			}
+			ast.Inspect(as.Rhs[0], func(k ast.Node) bool {
+				if e, ok := k.(ast.Expr); ok && pred(e) {
+					hit = true
+				}
+				return !hit
+			})
+			return true
+		})
+		ast.Inspect(n, func(m ast.Node) bool {
+			if vs, ok := m.(*ast.ValueSpec); ok {
+				for i, nm := range vs.Names {
+					if info.Defs[nm] == buf && i < len(vs.Values) {
+						ast.Inspect(vs.Values[i], func(k ast.Node) bool {
+							if e, ok := k.(ast.Expr); ok && pred(e) {
+								hit = true
+							}
+							return !hit
+						})
+					}
+				}
+			}
+			return true
+		})
+		return hit
+	}
+	if why == "" {
+		// source state
+		if !adds(f.Decl.Body, func(e ast.Expr) bool {
+			se, ok := unparen(e).(*ast.SelectorExpr)
+			return ok && fieldNamed(info, se, "q") && isTrans(se.X)
+		}) {
+			why = "the source state of the transition is not part of the text"
+		}
+	}
+	var ruleIf *ast.IfStmt
+	for _, st := range f.Decl.Body.List {
+		if is, ok := st.(*ast.IfStmt); ok && mentionsConst(c, info, is.Cond, "CheckMask") {
+			ruleIf = is
+		}
+	}
+	if why == "" && (ruleIf == nil || ruleIf.Else == nil) {
+		why = "no `if <rule bit> { … } else { … }` distinguishing reduce and symbol transitions"
+	}
+	if why == "" {
+		// reduce branch: lhs name + every rhs name
+		lhs := adds(ruleIf.Body, func(e ast.Expr) bool {
+			se, ok := unparen(e).(*ast.SelectorExpr)
+			if !ok || !fieldNamed(info, se, "Name") {
+				return false
+			}
+			in, ok := cf.resolve(se.X).(*ast.SelectorExpr)
+			return ok && fieldNamed(info, in, "LeftPart")
+		})
+		rhs := false
+		for _, rs := range cf.rangesOver(ruleIf.Body, func(e ast.Expr) bool { return fieldNamed(info, cf.resolve(e), "RighPart") }) {
+			elem := identObj(info, rs.Value)
+			if elem != nil && noSkips(rs.Body) && cf.unconditional(rs, ruleIf.Body) && adds(rs.Body, func(e ast.Expr) bool {
+				se, ok := unparen(e).(*ast.SelectorExpr)
+				return ok && fieldNamed(info, se, "Name") && identObj(info, se.X) == elem
+			}) {
+				rhs = true
+			}
+		}
+		sym := adds(ruleIf.Else, func(e ast.Expr) bool {
+			se, ok := unparen(e).(*ast.SelectorExpr)
+			if !ok || !fieldNamed(info, se, "Name") {
+				return false
+			}
+			call, ok := unparen(se.X).(*ast.CallExpr)
+			if !ok {
+				return false
+			}
+			fn := callee(info, call)
+			return fn != nil && fn.Name() == "fetchSymbol"
+		})
+		switch {
+		case !lhs:
+			why = "a reduce transition's text lacks the rule's left-hand side"
+		case !rhs:
+			why = "a reduce transition's text lacks the rule's right-hand symbols (all of them, unconditionally)"
+		case !sym:
+			why = "a symbol transition's text lacks the symbol's name"
+		}
+	}
+	r.Check(why == "", "C18.c", "R2 COVERAGE", f.Name, c.pos(f.Decl.Pos()),
+		"a transition is shown as its source state plus the rule (left-hand side and every right-hand symbol) or the symbol it is labelled with", why)
+}
+
+// mentionsConst: the expression contains a constant operand whose value equals the named LALR constant.
+func mentionsConst(c *Ctx, info *types.Info, e ast.Expr, name string) bool {
+	want, ok := pkgConst(c.Pkg("LALR"), name)
+	if !ok {
+		return false
+	}
+	hit := false
+	ast.Inspect(e, func(n ast.Node) bool {
+		if x, ok := n.(ast.Expr); ok {
+			if cv := constOf(info, x); cv != nil && cv.Kind() == constant.Int && constant.Compare(constant.ToInt(cv), token.EQL, constant.ToInt(want)) {
+				hit = true
+			}
+		}
+		return !hit
+	})
+	return hit
 }
